@@ -194,6 +194,178 @@ def c01_custom(pid, tier, plan, scr, hbin, specdir):
     return cov, violations, known_hits
 
 
+def _vectors(out):
+    import re, json, vlib
+    vs, seen = [], set()
+    for m in re.finditer(r'<<"VECTOR", "(.*)">>', out):
+        js = vlib.unquote_tla_string(m.group(1))
+        if js not in seen:
+            seen.add(js)
+            vs.append(json.loads(js))
+    return vs
+
+
+def c19_custom(pid, tier, plan, scr, hbin, specdir):
+    """C19: TLC checks DenomProps for every input of the bounded configurations of MC_Denom and prints the
+    conformance vectors (input string, expected output strings) of EVERY explored input; tlc -simulate adds
+    long pseudo-random inputs (5..30 significant digits, every fractional length); the harness calls the REAL
+    ConvertUndDenomination on every vector (and the way back); TraceDenom re-derives the expected strings
+    from the digit sequences and judges the returned strings."""
+    import os, json, subprocess, shutil
+    import vlib
+    from check_common import classify
+    sd = vlib.seed()
+    cov = dict(states=0, transitions=0, traces_validated_against_impl=0, samples=[], mc_runs=[], recordings=[],
+               steps_validated=0, notes=[], findings_other_properties=0, vectors=0)
+    cfgs = ["MC_Denom_quick.cfg"] if tier == "quick" else ["MC_Denom_quick.cfg", "MC_Denom_full.cfg", "MC_Denom_deep.cfg"]
+    recs = []
+    for cfg in cfgs:
+        rc, out, dt = vlib.run_tlc(specdir, "MC_Denom.tla", cfg, scr, workers=1, timeout=3000)
+        c = vlib.parse_counts(out)
+        if "Model checking completed. No error has been found." not in out or not c:
+            raise vlib.Inconclusive("TLC reported an error on MC_Denom/%s (model error):\n%s" % (cfg, out[-4000:]))
+        cov["mc_runs"].append(dict(module="MC_Denom.tla", cfg=cfg, generated=c[0], distinct=c[1], wall_s=round(dt, 1)))
+        cov["states"] += c[1]
+        cov["transitions"] += c[0]
+        vs = _vectors(out)
+        if not vs:
+            raise vlib.Inconclusive("no vectors from " + cfg)
+        recs.append((_denom_record(hbin, vs, scr, cfg), "tlc-exhaustive vectors:" + cfg, len(vs)))
+        cov["vectors"] += len(vs)
+        if len(cov["samples"]) < 2:
+            cov["samples"].append(dict(source=cfg, vector=vs[len(vs) // 2]))
+    num = 300 if tier == "quick" else 6000
+    procs = 4 if tier == "quick" else 12
+    outs = []
+    ps = []
+    for i in range(procs):
+        meta = scr.sub("simmeta")
+        cmd = ["timeout", "900", "tlc", "-workers", "1", "-simulate", "num=%d" % ((num + procs - 1) // procs), "-depth", "33",
+               "-seed", str(sd * 7919 + i), "-metadir", meta, "-config", "MC_Denom_sim.cfg", "MC_Denom.tla"]
+        ps.append((subprocess.Popen(cmd, cwd=specdir, stdout=subprocess.PIPE, stderr=subprocess.STDOUT, text=True), meta))
+    vs, seen = [], set()
+    for p, meta in ps:
+        out, _ = p.communicate()
+        shutil.rmtree(meta, ignore_errors=True)
+        if "Error:" in out:
+            raise vlib.Inconclusive("TLC simulation failed on MC_Denom_sim (model error):\n" + out[-3000:])
+        for v in _vectors(out):
+            k = json.dumps(v, sort_keys=True)
+            if k not in seen:
+                seen.add(k)
+                vs.append(v)
+    if not vs:
+        raise vlib.Inconclusive("no vectors from MC_Denom_sim (dead driver)")
+    recs.append((_denom_record(hbin, vs, scr, "sim"), "tlc-simulate long vectors:MC_Denom_sim.cfg", len(vs)))
+    cov["vectors"] += len(vs)
+    cov["samples"].append(dict(source="MC_Denom_sim.cfg", vector=vs[0]))
+    violations, known_hits = classify(pid, recs, cov, scr, specdir, "TraceDenom.tla", "TraceDenom.cfg")
+    return cov, violations, known_hits
+
+
+def _replay_verdict(pid, path, rec, scr, specdir, module, cfg):
+    import json, vlib
+    n, findings, _ = vlib.validate(specdir, rec, scr, module=module, cfg=cfg)
+    mine = [f for f in findings if f[2] == pid]
+    for f in mine[:20]:
+        print("finding line=%d layer=%s detail=%s" % (f[0], f[1], json.dumps(f[3])))
+    if mine:
+        _, _, ex = vlib.validate(specdir, rec, scr, explain=mine[0][0], module=module, cfg=cfg)
+        for e in ex:
+            print("explain " + json.dumps(e)[:3000])
+        print("VIOLATION property=%s replay=%s" % (pid, path))
+        return 1
+    print("replay: no finding for %s" % pid)
+    return 0
+
+
+def c19_replay(pid, path, scr, hbin, specdir):
+    """re-convert the vectors of a stored recording on the current tree and judge them again"""
+    import json
+    vs = [json.loads(l)["args"] for l in open(path) if l.strip()]
+    rec = _denom_record(hbin, vs, scr, "replay")
+    return _replay_verdict(pid, path, rec, scr, specdir, "TraceDenom.tla", "TraceDenom.cfg")
+
+
+def c18_replay(pid, path, scr, hbin, specdir):
+    """re-execute the operations of a stored recording (one behaviour with its instantiation) on the current tree"""
+    import json, os, vlib
+    behs, cur = [], None
+    for l in open(path):
+        if not l.strip():
+            continue
+        r = json.loads(l)
+        if r["a"] == "Reset":
+            cur = dict(keys=r["args"]["keys"], ops=[])
+            behs.append(cur)
+        elif r["a"] == "KeyOp" and cur is not None:
+            cur["ops"].append(dict(op=r["args"]["op"], sec=r["args"]["sec"], k=r["args"]["k"], v=r["args"]["v"]))
+    inp_b = []
+    for b in behs:
+        if b["ops"]:
+            ops = [dict(o) for o in b["ops"]]
+            ops[0]["keys"] = b["keys"]
+            inp_b.append(ops)
+    d = scr.sub("keys-replay")
+    inp, out = os.path.join(d, "behaviours.json"), os.path.join(d, "rec.ndjson")
+    json.dump(inp_b, open(inp, "w"))
+    vlib.harness(hbin, ["keys", "-in", inp, "-out", out, "-runs", "1"])
+    return _replay_verdict(pid, path, out, scr, specdir, "TraceKeys.tla", "TraceKeys.cfg")
+
+
+def _denom_record(hbin, vs, scr, name):
+    import os, json, vlib
+    d = scr.sub("denom-" + name.replace(".cfg", ""))
+    inp, out = os.path.join(d, "vectors.json"), os.path.join(d, "rec.ndjson")
+    json.dump(vs, open(inp, "w"))
+    vlib.harness(hbin, ["denom", "-in", inp, "-out", out])
+    return out
+
+
+def c18_custom(pid, tier, plan, scr, hbin, specdir):
+    """C18: (i) TLC checks PairOK for EVERY ordered pair of logical keys of each module's store (layout of
+    DESIGN Appendix C) for small id widths / byte alphabets; (ii) TLC enumerates every Set/Del sequence of
+    length MaxLen over four symbolic keys per keeper section on the ideal map; the harness executes every
+    sequence on the REAL keepers, several times with the symbolic keys instantiated from boundary tables
+    (0, 1, 2^63, 2^64-1, byte-reversed ids; address lengths 1..255, one a prefix of the other, sender/receiver
+    swapped), reads everything back after every operation; TraceKeys judges against the ideal map."""
+    import os, json
+    import vlib
+    from check_common import classify
+    sd = vlib.seed()
+    cov = dict(states=0, transitions=0, traces_validated_against_impl=0, samples=[], mc_runs=[], recordings=[],
+               steps_validated=0, notes=[], findings_other_properties=0)
+    pair_cfgs = ["MC_Keys_pairs_w1.cfg", "MC_Keys_pairs_str_quick.cfg"] if tier == "quick" else \
+        ["MC_Keys_pairs_w1.cfg", "MC_Keys_pairs_w2.cfg", "MC_Keys_pairs_w3.cfg", "MC_Keys_pairs_str_quick.cfg", "MC_Keys_pairs_str_full.cfg"]
+    for cfg in pair_cfgs:
+        r = vlib.mc_exhaustive(specdir, "MC_Keys.tla", cfg, scr, workers=16, timeout=3000)
+        cov["mc_runs"].append(r)
+        cov["states"] += r["distinct"]
+        cov["transitions"] += r["generated"]
+    kv = "MC_Keys_kv_quick.cfg" if tier == "quick" else "MC_Keys_kv_full.cfg"
+    behs = vlib.bfs_schedules(specdir, "MC_Keys.tla", kv, scr, timeout=3000)
+    if not behs:
+        raise vlib.Inconclusive("no behaviours from %s (dead driver)" % kv)
+    cov["mc_runs"].append(vlib.bfs_schedules.last)
+    cov["states"] += vlib.bfs_schedules.last["distinct"]
+    cov["transitions"] += vlib.bfs_schedules.last["generated"]
+    runs = 3 if tier == "quick" else 5
+    d = scr.sub("keys")
+    inp, out = os.path.join(d, "behaviours.json"), os.path.join(d, "rec.ndjson")
+    json.dump(behs, open(inp, "w"))
+    stats = vlib.harness(hbin, ["keys", "-in", inp, "-out", out, "-runs", str(runs), "-seed", str(sd)], timeout=3000)
+    try:
+        cov["harness_stats"] = json.loads(stats.strip().splitlines()[-1])
+    except Exception:
+        cov["harness_stats"] = stats[-500:]
+    cov["samples"].append(dict(source=kv, behaviour=behs[len(behs) // 2]))
+    first = [json.loads(l) for l in open(out).read(200000).splitlines()[:8]]
+    cov["samples"].append(dict(source="recording", steps=[dict(a=r["a"], args=r["args"]) for r in first if r["a"] != "KeySample"][:3]))
+    recs = [(out, "tlc-enumerated KV behaviours:%s x %d instantiations" % (kv, runs), len(behs) * runs)]
+    violations, known_hits = classify(pid, recs, cov, scr, specdir, "TraceKeys.tla", "TraceKeys.cfg")
+    return cov, violations, known_hits
+
+
 PLANS = {
     "C03": dict(mc=ENT_MC, sim=ENT_SIM, random=rnd("ent", (300, 3), (2000, 20)),
                 rule="TLC exhaustive on MC_Ent (all interleavings of raise/decide/whitelist/gov param change/time advance in small scope); behaviours = TLC-simulated schedules + seeded random histories executed on the real app; non-trivial = a recorded step (one ABCI call) validated against Chain!Step and all C03 monitors",
@@ -235,6 +407,13 @@ PLANS = {
     "C15": dict(custom=c15_custom,
                 rule="TLC checks C15State (import assertions hold, round trip is the identity on the four modules' state up to the export cap, second export identical, imported state satisfies every module invariant) in EVERY reachable state of MC_Fee / MC_Reg (export cap 2) / MC_Str; on the real app, TLC-simulated behaviours get an export + import into a fresh default-configured app after every block boundary (one variant each) and seeded random histories at random boundaries; import must not panic, all registered invariants must hold, the second export's enterprise/wrkchain/beacon/stream sections must be identical, projections equal, and the rest of the behaviour runs on both chains in lockstep with equal projections",
                 assumptions=COMMON_ASSUME + ["sections of SDK modules in the exported document are not compared", "the 20,000-record export cap is crossed only in the model (cap 2), not on the real app"]),
+    "C18": dict(custom=c18_custom, replay=c18_replay, trace_module="TraceKeys.tla", trace_cfg="TraceKeys.cfg",
+                rule="TLC exhaustive on MC_Keys PairSpec (every ordered pair of logical keys of one module's store for id width W <= 3 and small byte alphabets: injective, no prefix capture by section / per-registration / per-receiver scans, byte order = numeric order, stream keys parse back) and KVSpec (every Set/Del sequence over four symbolic keys per keeper section on the ideal map: non-interference, exact ordered iteration); every KV behaviour is executed on the REAL keepers with the symbolic keys instantiated from boundary tables (ids/heights 0, 1, 2^63, 2^64-1, byte-reversed twins; addresses of lengths 1..255 incl. 20/32/255, proper prefixes of each other; streams with receiver/sender swapped or sharing prefixes); after every operation every key is read back by point reads, iteration/list functions and the stream gRPC list queries; non-trivial = one recorded operation with its complete read-back judged by TraceKeys against Keys.tla",
+                assumptions=COMMON_ASSUME[:2] + ["keepers are exercised on a cache branch of a block in progress, not through transactions (addresses of 1..255 bytes cannot sign)", "the real key builders' bytes are compared with the Appendix C layout as notes only; a different alias-free layout is allowed"]),
+    "C19": dict(custom=c19_custom, replay=c19_replay, trace_module="TraceDenom.tla", trace_cfg="TraceDenom.cfg",
+                rule="TLC checks DenomProps (round trip, pure point shift, representation independence, agreement with integer arithmetic where it fits) for EVERY decimal input of the bounded configurations of MC_Denom and emits the conformance vector of every explored input, plus tlc -simulate vectors with 5..30 significant digits and every fractional length 0..9; every vector is converted by the REAL ConvertUndDenomination (fund->nund, nund->fund, there and back); TraceDenom re-derives the expected strings from the digit sequences (VectorsFromSpec) and compares strings; non-trivial = one distinct vector",
+                assumptions=["the function under test is pure; TLC, the Go toolchain and the harness' suffix/leading-zero stripping are trusted",
+                             "inputs are plain non-negative decimal strings (no exponent, sign or separators) with at most nine fractional digits and at most 30 significant digits"]),
     "C06": dict(custom=c06_custom,
                 rule="TLC (MC_Adm) enumerates every CheckTx input of the bounded input space (message sequences x fee classes x extra denomination x payer classes x two fee presets) and checks meta-properties of the ideal admission rule; every enumerated input (quick: all singles + a seeded sample of pairs) is offered to the real app.CheckTx on a committed prepared state; violation = admitted by the code and refused by the ideal rule; non-trivial = a distinct input",
                 assumptions=COMMON_ASSUME + ["only the direction 'code admits and the ideal rule refuses' is a violation; the converse is logged as a note"]),
